@@ -593,3 +593,27 @@ def c02_r6(ctx):
             ctx.ob("%s.%s [self=%s]" % (f.short.rsplit(".", 1)[0], m, c.name), bad is None,
                    "does not publish a TOC or delete/rename index files",
                    detail="%s in %s" % (bad[1], fmt(bad[0])) if bad else "", loc=f.loc)
+
+
+RENAME_EFFECTS_OK = ("os.path.exists", "os.remove", "os.rename", "os.replace", "os.path.join", "self._fpath")
+
+
+@rule("C02", "R7", "K3", "a name becomes visible in the index directory only complete: rename_file() creates nothing itself",
+      min_instances=1, also=("C04",),
+      clause="FileStorage.rename_file() -- the step that publishes a finished TOC under its final name -- touches the file system "
+             "only through os.path.exists, os.remove (non-safe mode) and os.rename/os.replace: it never opens or creates a file at "
+             "the new name (a placeholder created first would be an empty _MAIN_<gen>.toc that readers can see and try to load).")
+def c02_r7(ctx):
+    prog = ctx.prog
+    f = prog.method("filedb.filestore.FileStorage", "rename_file", inherited=False)
+    ctx.saw(f)
+    al = norm.aliases(f.node)
+    effects = []
+    for c in norm.calls_in(f.node):
+        t = norm.canon(c.func, al)
+        if t.startswith("os.") or t in ("open", "io.open") or t.startswith("shutil.") or t.startswith("self."):
+            effects.append(t)
+    bad = [t for t in effects if t not in RENAME_EFFECTS_OK]
+    renames = [t for t in effects if t in ("os.rename", "os.replace")]
+    ctx.ob(f, not bad and len(renames) == 1, "rename_file's only file-system effects are exists / remove / one rename",
+           detail="other effects: %s" % bad if bad else "renames: %s" % renames)
